@@ -247,11 +247,11 @@ Box<ITV>::expand_space_dimension(const Variable var,
 
   // The space dimension of the resulting Box should not
   // overflow the maximum allowed space dimension.
-  if (m > max_space_dimension() - space_dim) {
-    throw_invalid_argument("expand_dimension(v, m)",
-                           "adding m new space dimensions exceeds "
-                           "the maximum allowed space dimension");
-  }
+  check_space_dimension_overflow(m, max_space_dimension() - space_dim,
+                                 "PPL::Box::",
+                                 "expand_space_dimension(v, m)",
+                                 "adding m new space dimensions exceeds "
+                                 "the maximum allowed space dimension");
 
   // To expand the space dimension corresponding to variable `var',
   // we append to the box `m' copies of the corresponding interval.
